@@ -120,7 +120,11 @@ def analyse(F):
 
         def flat(v):
             v = I_.deref(v)
-            return [y for x in v.items for y in flat(x)] if isinstance(v, Tup) else [v]
+            if isinstance(v, Tup):
+                return [y for x in v.items for y in flat(x)]
+            if isinstance(v, Struct) and not v.path.endswith(("Verifier", "R1CSProof")):
+                return [y for x in v.fields.values() for y in flat(x)]  # a private per-instance record
+            return [v]
 
         parts = flat(probe)
         is_l2 = any(isinstance(x, Struct) and x.path.endswith("Verifier") for x in parts) and any(isinstance(x, Struct) and x.path.endswith("R1CSProof") for x in parts) and any(isinstance(x, Vec) for x in parts)
